@@ -4,9 +4,9 @@ package classifier
 
 import (
 	"bytes"
-	"math"
 	"encoding/json"
 	"fmt"
+	"math"
 	"os"
 	"strings"
 	"sync/atomic"
